@@ -4,6 +4,7 @@ set -e
 cd "$(dirname "$0")/.."
 mkdir -p .cache evidence replays
 tools/build_repo.sh O1 >/dev/null
+tools/footprint.py --quiet || true
 python3 - <<'PY'
 import sys, os
 sys.path.insert(0, "lib")
